@@ -683,7 +683,23 @@ def sweep_suite(ctx, res, add):
         g = m.generate(random.Random(ctx.seed + 15), "quick")[0]
         return [("c20_drv.cpp", "sweep_c20", [], [[h] + list(ops[:400]) for (h, ops) in g.groups])]
 
-    for name, fn in (("C01", c01), ("C16", c16), ("C13", c13), ("C10", c10), ("C20", c20)):
+    def c03():
+        m = importlib.import_module("props.c03")
+
+        class Fake:
+            rng = random.Random(ctx.seed + 16)
+            tier = "quick"
+        cs = m.generate(Fake)[0]
+        cs = cs[::max(1, len(cs) // 300)]
+        # harness/c03_drv.cpp:62 (fmt) shifts a negative mantissa left: UB of that harness before C++20, not of the library
+        return [("c03_drv.cpp", "sweep_c03_tbb", ["-DGUDHI_USE_TBB", "-fno-sanitize=shift"], [[c.header()] + list(c.ops) for c in cs])]
+
+    def c17():
+        m = importlib.import_module("props.c17")
+        hist = list(m.load_corpus()) + list(m.boundary_stream()) + list(m.exhaustive_stream(False))[:400]
+        return [("c17_drv.cpp", "sweep_c17", [], [["H " + name.replace(" ", "_")] + list(ops) for (name, ops) in hist])]
+
+    for name, fn in (("C01", c01), ("C16", c16), ("C13", c13), ("C10", c10), ("C20", c20), ("C03", c03), ("C17", c17)):
         try:
             for (src, tag, fl, scripts) in fn():
                 scripts = [sc for sc in scripts if len(sc) > 1]
